@@ -1,3 +1,4 @@
+import copy
 from typing import Any, ClassVar, Dict, Union
 
 from statham.schema.elements.base import Element, UNBOUND_PROPERTY
@@ -56,10 +57,12 @@ class Object(metaclass=ObjectMeta):
         if not isinstance(cls.default, NotPassed) and isinstance(
             value, NotPassed
         ):
+            # Work on a copy: whatever is returned belongs to the caller.
+            default = copy.deepcopy(cls.default)
             try:
-                return cls(cls.default, property_)
+                return cls(default, property_)
             except (TypeError, ValidationError):
-                return cls.default
+                return default
         if isinstance(value, NotPassed):
             return value
         for validator in cls.validators:
@@ -79,7 +82,7 @@ class Object(metaclass=ObjectMeta):
         # instance attribute of the same name.
         default = type(self).default
         if isinstance(value, NotPassed) and not isinstance(default, NotPassed):
-            value = default
+            value = copy.deepcopy(default)
         self._dict: Dict[str, Any] = {}
         for attr_name, attr_value in type(self).__properties__(value).items():
             if attr_name in type(self).properties:
